@@ -676,20 +676,25 @@ def run(ctx):
         cases = [ctx.replay_case['case']]
     else:
         # (D) design model and its variants
-        ctx.model('MC_Units', 'MC_Units' if ctx.quick else 'MC_Units_thorough')
-        ctx.model('MC_Units', 'MC_Units_inverted_algebra')
-        for cfg, inv in (('MC_Units_inverted', 'DerivedAgree'),
-                         ('MC_Units_pairwise', 'PathIndependent'),
-                         ('MC_Units_nooffset', 'PathIndependent')):
-            bad = ctx.model('MC_Units', cfg, expect_ok=False)
-            if bad.ok or bad.violated != inv:
-                raise core.MachineryError('%s should be rejected by %s:\n%s'
-                                          % (cfg, inv, bad.out[-1500:]))
-        ctx.model('MC_UnitsRefuse', 'MC_UnitsRefuse', workers=4)
-        bad = ctx.model('MC_UnitsRefuse', 'MC_UnitsRefuse_cache', workers=4, expect_ok=False)
-        if bad.ok or bad.violated != 'RefusedEveryTime':
-            raise core.MachineryError('MC_UnitsRefuse_cache should be rejected by RefusedEveryTime:\n'
-                                      + bad.out[-1500:])
+        # the design configurations are small and independent: run them side by side
+        import concurrent.futures as cf
+        jobs = [('MC_Units', 'MC_Units' if ctx.quick else 'MC_Units_thorough', None),
+                ('MC_Units', 'MC_Units_inverted_algebra', None),
+                ('MC_Units', 'MC_Units_inverted', 'DerivedAgree'),
+                ('MC_Units', 'MC_Units_pairwise', 'PathIndependent'),
+                ('MC_Units', 'MC_Units_nooffset', 'PathIndependent'),
+                ('MC_UnitsRefuse', 'MC_UnitsRefuse', None),
+                ('MC_UnitsRefuse', 'MC_UnitsRefuse_cache', 'RefusedEveryTime')]
+
+        def one(job):
+            mod, cfg, inv = job
+            r = ctx.model(mod, cfg, workers=2, expect_ok=inv is None)
+            if inv is not None and (r.ok or r.violated != inv):
+                raise core.MachineryError('%s should be rejected by %s:\n%s' % (cfg, inv, r.out[-1500:]))
+            return r
+
+        with cf.ThreadPoolExecutor(max_workers=4) as ex:
+            list(ex.map(one, jobs))
         ctx.notes.append('design model: an inverted table entry passes every algebra law '
                          '(MC_Units_inverted_algebra) and is rejected only by DerivedAgree; an edited '
                          'pairwise cell and a dropped temperature offset are rejected by PathIndependent')
